@@ -295,7 +295,13 @@ class CompiledRouter:
                     raise UnacceptableRouteError(
                         _NO_CHILDREN_ERR.format(uri_template, *cpc)
                     )
-                insert(new_node.children, path_index + 1)
+                try:
+                    insert(new_node.children, path_index + 1)
+                except UnacceptableRouteError:
+                    # NOTE: do not leave a partially built branch behind when a
+                    # deeper segment of the template turns out to be unacceptable.
+                    nodes.remove(new_node)
+                    raise
 
         insert(self._roots)
         # NOTE(caselit): when compile is True run the actual compile step, otherwise
